@@ -78,7 +78,9 @@ func runC06(r *fw.Run, p *fw.Program) {
 	c06LenMin(r, p)
 	c06ErrFirst(r, p)
 	c06LoopGuard(r, p)
+	c06NilField(r, p)
 	c06ExploreArrays(p)
+	c06ExploreNilField(p)
 	c06Sym(r, p)
 	c06OutType(r, p)
 	c06DebugSSA(p)
